@@ -73,6 +73,7 @@ impl DiffType {
 }
 impl<'p> Painter<'p> {
     //@ stub src/paint.rs Painter::emit spec=paint.emit
+    //@ stub src/paint.rs Painter::paint_buffered_minus_and_plus_lines spec=paint.paint_buffered_minus_and_plus_lines optional=1
 }
 /// the two decoration writers: exactly one line of text each, nothing else touched
 pub uninterp spec fn mc_header_text(c: MergeConflictCommit, style: Style, names: &MergeConflictCommitNames, config: &Config) -> Seq<char>;
@@ -106,6 +107,17 @@ pub open spec fn mc_enter_ok(o: &StateMachine, f: &StateMachine, r: bool, new_st
     &&& f.painter.output_buffer == o.painter.output_buffer && f.painter.writer.hist() == o.painter.writer.hist()
     &&& (f.painter.line_numbers_data is Some) == (o.painter.line_numbers_data is Some)
     &&& (r ==> f.state == new_state && is_prefix(marker, o.line@))
+    &&& (!r ==> f.state == o.state && f.painter == o.painter)
+}
+/// the begin marker: the buffered lines of the hunk are rendered (the region itself is written directly when it ends,
+/// so whatever is still buffered then would come out after it), nothing is stored, nothing is written yet
+pub open spec fn mc_begin_ok(o: &StateMachine, f: &StateMachine, r: bool, new_state: State) -> bool {
+    &&& sm_frame(f, o)
+    &&& f.painter.merge_conflict_lines == o.painter.merge_conflict_lines
+    &&& f.painter.writer.hist() == o.painter.writer.hist()
+    &&& (f.painter.line_numbers_data is Some) == (o.painter.line_numbers_data is Some)
+    &&& (r ==> f.state == new_state && is_prefix("++<<<<<<<"@, o.line@) && f.painter.minus_lines@.len() == 0 && f.painter.plus_lines@.len() == 0
+              && all_lines(&f.painter) =~= all_lines(&o.painter))
     &&& (!r ==> f.state == o.state && f.painter == o.painter)
 }
 /// The stored region is written as: what was buffered, the begin bar, then for Ours and for Theirs a header
@@ -189,7 +201,10 @@ pub open spec fn mc_only_state_changed(o: &StateMachine, f: &StateMachine) -> bo
 }
 pub open spec fn mc_line_accounted(o: &StateMachine, f: &StateMachine) -> bool {
     let l = o.line@;
-    ||| ((is_prefix("++<<<<<<<"@, l) || is_prefix("++|||||||"@, l) || is_prefix("++======="@, l)) && mc_only_state_changed(o, f) && f.state is MergeConflict)
+    ||| ((is_prefix("++|||||||"@, l) || is_prefix("++======="@, l)) && mc_only_state_changed(o, f) && f.state is MergeConflict)
+    ||| (is_prefix("++<<<<<<<"@, l) && f.state is MergeConflict && f.painter.merge_conflict_lines == o.painter.merge_conflict_lines
+            && f.painter.writer.hist() == o.painter.writer.hist() && f.painter.minus_lines@.len() == 0 && f.painter.plus_lines@.len() == 0
+            && all_lines(&f.painter) =~= all_lines(&o.painter))
     ||| (is_prefix("++>>>>>>>"@, l) && mc_empty(&f.painter.merge_conflict_lines) && !(f.state is MergeConflict) && f.painter.output_buffer@.len() == 0
             && f.painter.minus_lines@ == o.painter.minus_lines@ && f.painter.plus_lines@ == o.painter.plus_lines@)
     ||| mc_stored_side(o, f, MergeConflictCommit::Ours) || mc_stored_side(o, f, MergeConflictCommit::Ancestral) || mc_stored_side(o, f, MergeConflictCommit::Theirs)
@@ -212,7 +227,7 @@ impl<'a> StateMachine<'a> {
     //@|         mc_painter_rest_same(&final(self).painter, &old(self).painter),
 
     //@ fn src/handlers/merge_conflict.rs StateMachine::enter_merge_conflict
-    //@| ensures mc_enter_ok(old(self), final(self), r, State::MergeConflict(*merge_parents, MergeConflictCommit::Ours), "++<<<<<<<"@),  // @C01,C04:conflict.begin.marker.changes.the.state.only
+    //@| ensures mc_begin_ok(old(self), final(self), r, State::MergeConflict(*merge_parents, MergeConflictCommit::Ours)),  // @C01,C04:the.hunk.lines.that.precede.a.conflict.region.are.rendered.before.it.the.begin.marker.stores.nothing
     //@ fn src/handlers/merge_conflict.rs StateMachine::enter_ancestral
     //@| ensures mc_enter_ok(old(self), final(self), r, State::MergeConflict(*merge_parents, MergeConflictCommit::Ancestral), "++|||||||"@),  // @C01,C04:conflict.ancestral.marker.changes.the.state.only
     //@ fn src/handlers/merge_conflict.rs StateMachine::enter_theirs
